@@ -4,3 +4,8 @@ pub assume_specification<T: Clone>[ <[T]>::to_vec ](s: &[T]) -> (r: Vec<T>)
 
 pub assume_specification<T>[ core::mem::replace::<T> ](dest: &mut T, src: T) -> (r: T)
   ensures r == *old(dest), *final(dest) == src;
+
+// std::mem::take(dest) == std::mem::replace(dest, Default::default()); the value left behind is the type's default (for the
+// stand-ins: stated by their Default::default contract), the old value is returned
+pub assume_specification<T: core::default::Default>[ core::mem::take::<T> ](dest: &mut T) -> (r: T)
+  ensures r == *old(dest), T::default.ensures((), *final(dest));
